@@ -20,6 +20,7 @@ Definition dec_ev (v : tval) : ev :=
   | 5 => EExpire (a 1%nat) | 6 => EDelete (a 1%nat) | 7 => ERate (vbool (vnth 1 v))
   | 8 => EClose (a 1%nat) | 9 => EOpen (a 1%nat) (a 2%nat) | 10 => ERekey (a 1%nat) | 11 => ERegister
   | 12 => EMsg (a 1%nat) None
+  | 14 => ECorrupt (a 1%nat) (vbool (vnth 2 v))
   | _ => EDelAnon (a 1%nat)
   end.
 
